@@ -6,6 +6,7 @@ import ZbossModel.Link
 import ZbossModel.Dispatch
 import ZbossModel.OpsCodec
 import ZbossModel.OpsCStruct
+import ZbossModel.OpsApp
 /-! Dispatch of line-protocol operations to the executable model. -/
 namespace Zboss.Ops
 open Zboss Zboss.Crc
@@ -207,6 +208,9 @@ def handle : List String → String
             | none =>
               match OpsCStruct.handle toks with
               | some r => r
-              | none => "bad-op"
+              | none =>
+                match OpsApp.handle toks with
+                | some r => r
+                | none => "bad-op"
 
 end Zboss.Ops
